@@ -551,7 +551,9 @@ def run(ctx):
     from engine.main import Machinery
     reached = set()
     ndrift = 0
-    for part in PARTS:
+    # VERIF_C07_PARTS (development aid only): comma-separated subset of the enumerated parts; default = all
+    only = [x for x in os.environ.get('VERIF_C07_PARTS', '').split(',') if x]
+    for part in [x for x in PARTS if not only or x in only]:
         d = os.path.join(ctx.scratch, 'cases_' + part)
         cat = os.path.join(ctx.scratch, 'catalogue_%s.json' % part)
         ctx.tlc('graders/MC_SingleList.tla', 'graders/MC_SingleList_%s_%s.cfg' % (part, ctx.tier), dump=d,
